@@ -182,6 +182,14 @@ func findInlineNode(file *ast.File, comment *ast.Comment, fset *token.FileSet) (
 		return file.Decls[i].End() > commentPos
 	})
 
+	// A comment that trails the last line of the preceding declaration
+	// ("var x T // @ignore CODE", "} // @ignore CODE") is inline as well
+	if idx > 0 && fset.Position(file.Decls[idx-1].End()).Line == commentLine {
+		if fileContent := fset.File(commentPos); fileContent != nil {
+			return fileContent.LineStart(commentLine), comment.End(), true
+		}
+	}
+
 	// If no declaration found, not inline
 	if idx >= len(file.Decls) {
 		return 0, 0, false
@@ -207,10 +215,12 @@ func findInlineNode(file *ast.File, comment *ast.Comment, fset *token.FileSet) (
 			return false
 		}
 
+		nodeStartLine := fset.Position(n.Pos()).Line
 		nodeEndLine := fset.Position(n.End()).Line
 
-		// Check if this node ends on the same line as the comment
-		if nodeEndLine == commentLine {
+		// Check if this node starts ("switch {", "{", "func(") or ends
+		// on the same line as the comment
+		if nodeStartLine == commentLine || nodeEndLine == commentLine {
 			hasCodeOnLine = true
 			return false // Found code, can stop
 		}
